@@ -2,8 +2,7 @@ package rules
 
 import (
 	"fmt"
-
-	"golang.org/x/tools/go/ssa"
+	"sort"
 
 	"scicheck/internal/core"
 )
@@ -11,33 +10,16 @@ import (
 func init() { Registry["DBG"] = dbg }
 
 func dbg(e *Env) {
-	p := e.P
-	td := p.Func("Task.TempDir")
-	sy := p.NewSymbolizer(nil)
-	for _, b := range td.Blocks {
-		for _, in := range b.Instrs {
-			if c, ok := in.(*ssa.Call); ok && c.Call.StaticCallee() != nil {
-				nm := c.Call.StaticCallee().String()
-				if nm == "crypto/sha1.Sum" || nm == "strings.Join" {
-					for i, a := range c.Call.Args {
-						fmt.Printf("%s arg%d: %s\n", nm, i, sy.InFunc(td, a))
-					}
-				}
-			}
-			if r, ok := in.(*ssa.Return); ok {
-				fmt.Println("return:", sy.InFunc(td, r.Results[0]))
-			}
-		}
+	fi := e.formatter()
+	fmt.Println("problems", fi.problems, "tag", fi.tagField)
+	var ls []string
+	for l := range fi.arms {
+		ls = append(ls, l)
 	}
-	wa := p.Func("Task.writeAuditLogs")
-	for _, b := range wa.Blocks {
-		for _, in := range b.Instrs {
-			switch x := in.(type) {
-			case *ssa.Store:
-				fmt.Printf("store %s := %s   @%s\n", sy.InFunc(wa, x.Addr), sy.InFunc(wa, x.Val), p.InstrPos(in))
-			case *ssa.MapUpdate:
-				fmt.Printf("mapupdate %s[%s] = %s  @%s\n", sy.InFunc(wa, x.Map), sy.InFunc(wa, x.Key), sy.InFunc(wa, x.Value), p.InstrPos(in))
-			}
+	sort.Strings(ls)
+	for _, l := range ls {
+		for _, a := range fi.arms[l] {
+			fmt.Printf("ARM %q: %s\n", l, a.sym)
 		}
 	}
 	_ = core.Top
